@@ -35,6 +35,9 @@ fn main() {
         out: None,
         only: None,
         scale_pct: 100,
+        max_cases: 0,
+        skip: Vec::new(),
+        trace_cases: false,
         extra: Vec::new(),
     };
     let mut i = 2;
@@ -57,6 +60,9 @@ fn main() {
             "--config" => o.config = val(),
             "--out" => o.out = Some(val()),
             "--scale" => o.scale_pct = val().parse().unwrap_or_else(|_| usage()),
+            "--max-cases" => o.max_cases = val().parse().unwrap_or_else(|_| usage()),
+            "--skip" => o.skip = val().split(',').map(|s| s.to_string()).collect(),
+            "--trace-cases" => o.trace_cases = true,
             "--only" => {
                 let v = val();
                 let (s, n) = v.rsplit_once(':').unwrap_or_else(|| usage());
@@ -66,7 +72,27 @@ fn main() {
         }
         i += 1;
     }
+    if o.max_cases > 0 {
+        work::bytes::TINY.store(true, std::sync::atomic::Ordering::Relaxed);
+    }
     ctx::install_panic_hook();
-    let code = mon::dispatch(&cmd, &o);
+    let code = if cmd == "multi" {
+        // multi props=c01,c03 outdir=DIR : several monitors in one process (Miri start-up is slow)
+        let props = o.extra.iter().find_map(|e| e.strip_prefix("props=")).unwrap_or("").to_string();
+        let outdir = o.extra.iter().find_map(|e| e.strip_prefix("outdir=")).unwrap_or(".").to_string();
+        let mut worst = 0;
+        for p in props.split(',').filter(|p| !p.is_empty()) {
+            let mut oo = o.clone();
+            oo.prop = p.to_string();
+            oo.out = Some(format!("{}/{}-{}.json", outdir, p, o.config));
+            eprintln!("MULTI begin {}", p);
+            let c = mon::dispatch(p, &oo);
+            eprintln!("MULTI end {} exit {}", p, c);
+            worst = worst.max(c);
+        }
+        worst
+    } else {
+        mon::dispatch(&cmd, &o)
+    };
     std::process::exit(code);
 }
